@@ -235,6 +235,7 @@ def t_match_chunk(n, minutes=3, hook_cancels=True, reds=None):
                 h.assume(ops.compare('>', v.e[1], v.e[2]) if reds[j] else ops.compare('<=', v.e[1], v.e[2]))
             rows.append(v)
         chunk = Arr(minutes, (lambda k, rows=rows: ops.pick(rows, k)), np=True, cols=6)
+        snapshot = [list(r_.e) for r_ in rows]
         h.cover('chunk.pre')
         out = h.outcome(f'{BM}._simulate_price_change_effect_multiple_candles', chunk, 'Sandbox', 'BTC-USDT')
         h.prove(out.ok, 'chunk.no-exception', {'raised': out.exc})
@@ -258,6 +259,17 @@ def t_match_chunk(n, minutes=3, hook_cancels=True, reds=None):
                 {'clause': 'ACTIVE at chunk end => price outside every gap-extended minute range of the chunk'})
         tail = [e[0] for e in W.ev[-2:]]
         h.prove(tail == ['add_multiple', 'liquidations'], 'chunk.stores-the-chunk-then-checks-liquidation-last', {'tail': tail})
+        # what is stored are the input minutes: the widening of a minute to the previous close is for matching only
+        stored = [e for e in W.ev if e[0] == 'add_multiple']
+        same = len(stored) == 1 and isinstance(stored[0][1][0], Arr)
+        if same:
+            given = stored[0][1][0]
+            same = ops.equal(given.n, minutes)
+            for j, snap in enumerate(snapshot):
+                row = given.fn(j)           # read through the array that reached the store (in-place edits of its rows show here)
+                for x_, y_ in zip(row.e, snap):
+                    same = ops.land(same, True if x_ is y_ else ops.equal(x_, y_))
+        h.prove(same, 'chunk.the-minutes-handed-to-the-store-are-the-unmodified-input-minutes')
     return t
 
 
